@@ -11,7 +11,7 @@ from . import nf
 from .nf import Rat, C, sym, app, mk_cmp, mk_not, mk_bool, mk_ite, mk_exp, Facts, BOTTOM
 from .model import Program, Func, strip_doc, dotted
 
-MODULE_BASES = {"torch", "math", "F", "ein", "np", "einops", "functools", "cmath"}
+MODULE_BASES = {"torch", "math", "F", "ein", "np", "einops", "functools", "cmath", "weakref", "itertools", "operator", "warnings", "nn", "argtest"}
 CASTS = {"float", "bool", "long", "int", "double", "half", "type_as"}
 IDENTITY_CASTS = {"astensors", "_astensorsfloat"}   # repo helpers that only convert their arguments to tensors
 DEFAULT_POSITIVE = (
@@ -51,7 +51,7 @@ class Builder:
 
     def __init__(self, prog: Program | None, func: Func | None, env=None, facts=None, *,
                  positive=DEFAULT_POSITIVE, erase_casts=True, inline_depth=3, self_prefix="self",
-                 inline_filter=None, erase_layout=False, erase_validation=False, keep_raises=False, track_locals=False):
+                 inline_filter=None, erase_layout=False, erase_validation=False, keep_raises=False, track_locals=False, track_effects=False):
         self.prog, self.func = prog, func
         self.env = dict(env or {})
         self.facts = facts or Facts()
@@ -62,6 +62,7 @@ class Builder:
         self.erase_layout = erase_layout
         self.erase_validation = erase_validation   # argtest.<check>(name, value, ...) -> value (validators return their value)
         self.keep_raises = keep_raises     # a `raise X(...)` is the value raise(X) (a leaf of the decision tree), not bottom
+        self.track_effects = track_effects  # calls evaluated as statements are appended to the pseudo-store "!effects" (ordered, path-sensitive)
         self.track_locals = track_locals   # item stores / deletes on local containers are recorded as stores "<name>[]"
         self.stores: dict[str, object] = {}   # dotted attribute path -> term (last store on this path)
         self.effects: list = []               # (kind, detail) for calls evaluated as statements
@@ -70,7 +71,7 @@ class Builder:
         b = Builder(self.prog, self.func, self.env if env is None else env, facts or self.facts,
                     positive=self.positive, erase_casts=self.erase_casts, inline_depth=self.inline_depth,
                     inline_filter=self.inline_filter, erase_layout=self.erase_layout, erase_validation=self.erase_validation,
-                    keep_raises=self.keep_raises, track_locals=self.track_locals)
+                    keep_raises=self.keep_raises, track_locals=self.track_locals, track_effects=self.track_effects)
         b.stores = dict(self.stores)
         return b
 
@@ -545,6 +546,8 @@ class Builder:
 
     def stmt(self, st: ast.stmt):
         if isinstance(st, ast.Assign):
+            if self.track_effects and isinstance(st.value, ast.Call) and len(st.targets) == 1 and isinstance(st.targets[0], ast.Name) and st.targets[0].id == "_":
+                return self.stmt(ast.copy_location(ast.Expr(value=st.value), st))    # `_ = f(...)` is the call for its effect
             v = self.t(st.value)
             for tgt in st.targets:
                 self.assign(tgt, v)
@@ -564,6 +567,13 @@ class Builder:
                     if d is not None:
                         self.env[d] = app("inplace", c.func.attr, self.t(c.func.value), *[self.t(a) for a in c.args])
                 self.effects.append(("call", c))
+                if self.track_effects:
+                    save, self.inline_depth = self.inline_depth, 0     # the call itself is the effect: keep it opaque
+                    try:
+                        ct = self.t(c)
+                    finally:
+                        self.inline_depth = save
+                    self.stores["!effects"] = app("seq", self.stores.get("!effects", sym("!effects")), ct if isinstance(ct, Rat) else app("tuple", *ct) if isinstance(ct, tuple) else app("const", str(ct)))
         elif isinstance(st, ast.Delete) and self.track_locals:
             for tg in st.targets:
                 if isinstance(tg, ast.Subscript) and dotted(tg.value) is not None:
